@@ -719,24 +719,44 @@ Definition save_applied (dm : N) (names : list series_patch) : M unit :=
   let old := match lookup_file p (fs_files fs1) with Some f => f_data f | None => [] end in
   mop (fun fs => fs_create dm fs p None (old ++ List.concat (List.map applied_line names))) (fun _ => RErr ESave).
 
+(* cmd.rs checks first that .pc/applied-patches, when it is there, can be read as a list of patches: only a missing
+   file means "nothing applied yet"; anything else that is not a list of patches ends the push *)
+Definition applied_readable (fs : fsys) : res unit :=
+  match fs_read fs [b ".pc"; b "applied-patches"] with
+  | inr NotFound => ROk tt
+  | inr _ => RErr EMismatch                        (* there, but not readable as a file *)
+  | inl af =>
+      match read_series (f_data af) with
+      | ROk _ => ROk tt
+      | RErr EOutOfModel => RErr EOutOfModel
+      | _ => RErr EMismatch                        (* not a list of patches *)
+      end
+  end.
+
+(* how many patches .pc/applied-patches records: it must be a prefix of the series (the `else 0` of the code is
+   only reached for a missing file, given applied_readable) *)
+Definition applied_count (fs : fsys) (series : list series_patch) : res nat :=
+  match fs_read fs [b ".pc"; b "applied-patches"] with
+  | inr _ => ROk 0%nat
+  | inl af =>
+      match read_series (f_data af) with
+      | ROk applied =>
+          if prefix_mismatch series applied then RErr EMismatch
+          else if Nat.ltb (length series) (length applied) then RErr EMismatch
+          else ROk (length applied)
+      | RErr EOutOfModel => RErr EOutOfModel
+      | _ => ROk 0%nat
+      end
+  end.
+
 (* which patches a push is asked to apply: (first, last) *)
 Definition resolve_range (fs : fsys) (g : goal) : res (list series_patch * nat * nat) :=
+  dor _ <- applied_readable fs;
   match fs_read fs [b "series"] with
   | inr _ => RErr ESeries
   | inl sf =>
       dor series <- read_series (f_data sf);
-      dor first <- (match fs_read fs [b ".pc"; b "applied-patches"] with
-                    | inr _ => ROk 0%nat
-                    | inl af =>
-                        match read_series (f_data af) with
-                        | ROk applied =>
-                            if prefix_mismatch series applied then RErr EMismatch
-                            else if Nat.ltb (length series) (length applied) then RErr EMismatch
-                            else ROk (length applied)
-                        | RErr EOutOfModel => RErr EOutOfModel
-                        | _ => ROk 0%nat
-                        end
-                    end);
+      dor first <- applied_count fs series;
       dor last <- (match g with
                    | GAll => ROk (length series)
                    | GCount n => ROk (Nat.min (first + n) (length series))
